@@ -194,6 +194,15 @@ Proof.
   destruct (weak b =? 0); reflexivity.
 Qed.
 
+(** a fresh allocation: one strong handle, the implicit weak, an empty table --
+    the model's [new_box], at both initialisation sites of the source
+    ([Rc::new]; [allocate_for_layout] behind [new_uninit] and [From<Box<T>>]) *)
+Theorem new_box_translated p :
+  cells_of (new_box p) = g_new_cells /\ cells_of (new_box p) = g_alloc_cells /\
+  links (new_box p) = Some [] /\ value (new_box p) = Some p /\ freed (new_box p) = false.
+Proof. repeat split; reflexivity. Qed.
+
+Print Assumptions new_box_translated.
 Print Assumptions rc_is_unique_translated.
 Print Assumptions act_get_mut_translated.
 Print Assumptions rc_strong_count_translated.
